@@ -103,10 +103,19 @@ def check(run):
         o = repo.func(rel, 'one_state')
         kinds.check_function(run, repo, o)
         bind.check_function_calls(run, repo, o, only={'StabilizerState'})
-        src = [norm(st.value).replace(' ', '') for st, _ in walk(o.node) if isinstance(st, ast.Assign) and norm(st.targets[0]) == 'gs']
+        # read from the sink: the two arguments of the StabilizerState(...) that is returned, with temporaries read through
+        from ..names import inlined
+        def arg(c, k, name):
+            for kw in c.keywords:
+                if kw.arg == name:
+                    return kw.value
+            return c.args[k] if len(c.args) > k else None
+        ctor = [c for c in ast.walk(o.node) if isinstance(c, ast.Call) and norm(c.func) == 'StabilizerState'
+                and arg(c, 0, 'gs') is not None and arg(c, 1, 'ps') is not None]
+        src = [norm(inlined(o, arg(c, 0, 'gs'))).replace(' ', '') for c in ctor]
         run.check(len(src) == 1 and src[0].startswith('zero_state(%s' % N) and src[0].endswith('.gs'), 'R2.rank', o, 'gs = zero_state(N).gs',
                   'the all-ones state has the zero-state tableau with flipped signs (found %s)' % src)
-        psd = [st.value for st, _ in walk(o.node) if isinstance(st, ast.Assign) and norm(st.targets[0]) == 'ps']
+        psd = [inlined(o, arg(c, 1, 'ps')) for c in ctor]
         run.check(len(psd) == 1 and kinds.kind_of(o, psd[0]) == 'HERM', 'R3a', o, 'ps = 2*ones', 'every stabilizer of the all-ones state has sign -1 (phase 2)')
         for n in ('random_pauli_state', 'random_clifford_state'):
             f = repo.func(rel, n)
@@ -195,14 +204,22 @@ def check(run):
     for rel in (K.PY_S, K.TC_S):
         g = repo.func(rel, 'ghz_state')
         dicts = [n for n in ast.walk(g.node) if isinstance(n, ast.Dict)]
-        ok = len(dicts) == 1 and sorted(norm(k).replace(' ', '') for k in dicts[0].keys) == ['i', 'i+1'] and all(isinstance(v, ast.Constant) and v.value == 3 for v in dicts[0].values)
+        ks = sorted((norm(k).replace(' ', '') for k in dicts[0].keys), key=len) if len(dicts) == 1 else []
+        ok = len(ks) == 2 and ks[0].isidentifier() and ks[1] in (ks[0] + '+1', '1+' + ks[0]) and all(isinstance(v, ast.Constant) and v.value == 3 for v in dicts[0].values)
         run.check(ok, 'R12.ghz', g, 'ZZ on neighbours', 'GHZ stabilizers Z_i Z_{i+1} (code 3 on qubits i, i+1)')
-        comp = [n for n in ast.walk(g.node) if isinstance(n, ast.ListComp)]
-        run.check(len(comp) == 1 and norm(comp[0].generators[0].iter).replace(' ', '') == 'range(N-1)', 'R12.ghz', g, 'range(N-1)', 'N-1 neighbour stabilizers')
+        # the qubit variable of the ZZ dictionary runs over range(N-1): comprehension or explicit loop
+        kv = sorted((norm(k) for k in dicts[0].keys), key=len)[0] if dicts else None
+        its = [n.iter for n in ast.walk(g.node) if isinstance(n, (ast.comprehension, ast.For)) and isinstance(n.target, ast.Name) and n.target.id == kv]
+        Np = g.posparams[0]
+        run.check(len(its) == 1 and norm(its[0]).replace(' ', '') in ('range(%s-1)' % Np, 'range(0,%s-1)' % Np), 'R12.ghz', g, 'range(N-1)', 'N-1 neighbour stabilizers')
         xs = [n for n in ast.walk(g.node) if isinstance(n, ast.BinOp) and isinstance(n.op, ast.Mult) and isinstance(n.left, ast.List)]
-        run.check(len(xs) == 1 and norm(xs[0]).replace(' ', '') == '[1]*N', 'R12.ghz', g, 'X...X', 'GHZ stabilizer X on every qubit (code 1 repeated N times)')
-        rets = [norm(st.value).replace(' ', '') for st, _ in walk(g.node) if isinstance(st, ast.Return)]
-        run.check(len(rets) == 1 and rets[0].startswith('stabilizer_state(paulis(objs'), 'R12.ghz', g, 'return', 'the GHZ state is the stabilizer state of these operators')
+        run.check(len(xs) == 1 and norm(xs[0]).replace(' ', '') in ('[1]*%s' % Np, '%s*[1]' % Np), 'R12.ghz', g, 'X...X', 'GHZ stabilizer X on every qubit (code 1 repeated N times)')
+        from ..names import local_deps, expr_deps
+        rets = [st.value for st, _ in walk(g.node) if isinstance(st, ast.Return)]
+        dps = expr_deps(g, rets[0], local_deps(g)) if len(rets) == 1 else set()
+        ok = len(rets) == 1 and isinstance(rets[0], ast.Call) and norm(rets[0].func) == 'stabilizer_state' \
+            and ('call', 'pauli') in dps and ('const', 3) in dps and ('const', 1) in dps
+        run.check(ok, 'R12.ghz', g, 'return', 'the GHZ state is the stabilizer state of these operators (the ZZ operators and the X string reach stabilizer_state)')
     # every constructor returns a new object built from nothing but its arguments: no module-level state is written and no
     # stored object is handed out twice (a cached identity table would be shared by every later state)
     eff = K.effects_of(repo)
